@@ -824,8 +824,9 @@ def directed_cases() -> list[dict]:
     # one column holding typed cells that are EQUAL as Python values but read differently: True == 1 == 1.0,
     # False == 0 == 0.0 (a reader that keys anything on the raw cell value confuses them); both orders,
     # numbers as int and as integral float, booleans as bool; the text containers spell TRUE / 1 / FALSE / 0
-    for order in (["TRUE", "1", "FALSE", "0"], ["1", "TRUE", "0", "FALSE"], ["0", "FALSE", "TRUE", "1", "1", "TRUE"]):
-        for num in ("int", "ifloat"):
+    for order, nums in ((["TRUE", "1", "FALSE", "0"], ("int", "ifloat")), (["1", "TRUE", "0", "FALSE"], ("int", "ifloat")),
+                        (["0", "FALSE", "TRUE", "1", "1", "TRUE"], ("ifloat",))):
+        for num in nums:
             aw = copy.deepcopy(base)
             aw["sheets"][0]["header"] += ["default"]
             aw["sheets"][0]["rows"] = [["text", f"q{i}", f"Q{i}", v] for i, v in enumerate(order)]
@@ -868,7 +869,7 @@ def explore(ctx, factor, bs):
         # their generated inputs are unchanged
         import time as _time
         _t0 = _time.time()
-        BT.explore_typed(ctx, rng, ctx.pick(400, 4000) * factor, ctx.pick(100, 800) * factor, directed=(factor == 1))
+        BT.explore_typed(ctx, rng, ctx.pick(250, 4000) * factor, ctx.pick(60, 800) * factor, directed=(factor == 1))
         ctx.notes["typed_stream_s"] = round(ctx.notes.get("typed_stream_s", 0) + _time.time() - _t0, 2)
         uns = sum(v for k, v in ctx.dist.items() if k.endswith(":unsupported"))
         fn = sum(v for k, v in ctx.dist.items() if k.startswith(("fn:", "pipe:")) and not k.startswith("fn:cell_text"))
